@@ -8,15 +8,6 @@ import ReuseVerif.Lemmas.C09Pieces
 import ReuseVerif.Lemmas.HeaderParts
 import ReuseVerif.Lemmas.FirstLine
 
-namespace Spec
-open Py Model
-
-/-- the sections one invocation works with: (above, old block, below); `--no-replace` has no old block -/
-def sectionsOf (c : HdrCfg) (replace : Bool) (t : Text) : Text × Text × Text :=
-  if replace then replaceSections c t else ((addSections c t).1, [], (addSections c t).2)
-
-end Spec
-
 namespace C09L
 open Py Model Spec C08L C10L
 
